@@ -76,6 +76,22 @@ TEXTS = {
     "localOptCall": ("bingo/local_optimizers/local_opt_fitness.py", "LocalOptFitnessFunction", "__call__"),
     "agraphNotifyModification": (AGRAPH, "AGraph", "_notify_modification"),
     "implicitCalculatePartials": ("bingo/symbolic_regression/implicit_regression.py", None, "_calculate_partials"),
+    "implicitFitnessVector": ("bingo/symbolic_regression/implicit_regression.py", "ImplicitRegression", "evaluate_fitness_vector"),
+    "getUtilizedCommands": ("bingo/symbolic_regression/agraph/simplification_backend/simplification_backend.py", None, "get_utilized_commands"),
+    "reduceStack": ("bingo/symbolic_regression/agraph/simplification_backend/simplification_backend.py", None, "reduce_stack"),
+    "agraphSetLocalOptParams": (AGRAPH, "AGraph", "set_local_optimization_params"),
+    "agraphUpdate": (AGRAPH, "AGraph", "_update"),
+    "hofUpdate": ("bingo/stats/hall_of_fame.py", "HallOfFame", "update"),
+    "hofItemShouldBeAdded": ("bingo/stats/hall_of_fame.py", "HallOfFame", "_item_should_be_added"),
+    "hofInsert": ("bingo/stats/hall_of_fame.py", "HallOfFame", "insert"),
+    "pfUpdate": ("bingo/stats/pareto_front.py", "ParetoFront", "update"),
+    "pfNotDominated": ("bingo/stats/pareto_front.py", "ParetoFront", "_not_dominated"),
+    "pfFirstDominates": ("bingo/stats/pareto_front.py", "ParetoFront", "_first_dominates"),
+    "loadOptimizerFromFile": ("bingo/evolutionary_optimizers/evolutionary_optimizer.py", None, "load_evolutionary_optimizer_from_file"),
+    "parMigrationPartner": ("bingo/evolutionary_optimizers/parallel_archipelago.py", "ParallelArchipelago", "_get_migration_partner"),
+    "parExchangeProgram": ("bingo/evolutionary_optimizers/parallel_archipelago.py", "ParallelArchipelago", "_population_exchange_program"),
+    "parCoordinateMigration": ("bingo/evolutionary_optimizers/parallel_archipelago.py", "ParallelArchipelago", "_coordinate_migration_between_islands"),
+    "serialExchangeProgram": ("bingo/evolutionary_optimizers/serial_archipelago.py", "SerialArchipelago", "_population_exchange_program"),
 }
 
 
